@@ -128,6 +128,11 @@ TSendDropped == Step("send_dropped") /\ UNCHANGED <<avars, scen, lastdrop, rreq>
    ELSE IF Cardinality(Alive) = 1 THEN owed' = TRUE /\ rconn' = (CHOOSE c \in Alive : TRUE) /\ sdrop' = "buffered"
    ELSE UNCHANGED <<owed, rconn, sdrop>>
 
+\* while a recv of the REQ socket is pending for a request it counts as outstanding, that request must be complete on the wire
+\* (what an abandoned send left in the socket is written out by the recv: nothing else will do it)
+TExpectWire == Step("expect_wire") /\ UNCHANGED <<avars, scen, mvars, call, wires>> /\
+   IF ~dead /\ stype = "REQ" /\ call = <<"recv">> /\ owed /\ ~E.ok THEN Flag("C08/outstanding-request-never-completed") ELSE NoFlag
+
 RECURSIVE DropMalformed(_, _)
 DropMalformed(t, s) == IF s # <<>> /\ ~WellFormed(t, Head(s)) THEN DropMalformed(t, Tail(s)) ELSE s
 TQuiescent == Step("quiescent") /\ UNCHANGED <<avars, scen, mvars, call, wires>> /\
@@ -139,10 +144,10 @@ TQuiescent == Step("quiescent") /\ UNCHANGED <<avars, scen, mvars, call, wires>>
    ELSE NoFlag
 TPanic == Step("panic") /\ UNCHANGED <<avars, scen, mvars, call, wires>> /\ Flag("C03/panic")
 THarness == Step("harness_error") /\ UNCHANGED <<avars, scen, mvars, call, wires>> /\ Flag("harness/script-error")
-Ignored == {"observed", "peer_part", "peer_bytes", "attach_call", "attach_pending", "released", "recv_pending", "send_pending", "end", "expect_wire"}
+Ignored == {"observed", "peer_part", "peer_bytes", "attach_call", "attach_pending", "released", "recv_pending", "send_pending", "end"}
 TIgnore == l <= NRec /\ E.ev \in Ignored /\ l' = l + 1 /\ UNCHANGED <<avars, scen, mvars, call, wires>> /\ NoFlag
 
-TNext == TReset \/ TAttachRet \/ TWrote \/ TCut \/ TPipe \/ TWire \/ TSendCall \/ TRecvCall \/ TSendRet \/ TRecvRet \/ TRecvDropped \/ TSendDropped
+TNext == TReset \/ TAttachRet \/ TWrote \/ TCut \/ TPipe \/ TWire \/ TSendCall \/ TRecvCall \/ TSendRet \/ TRecvRet \/ TRecvDropped \/ TSendDropped \/ TExpectWire
          \/ TQuiescent \/ TPanic \/ THarness \/ TIgnore
 TSpec == TInit /\ [][TNext]_tvars
 Accepted == Consumed
